@@ -86,6 +86,7 @@ type ScanCut struct {
 	CutLastAfter  int  // >0: return only this many cells of the last entry's row (a partial fragment) if it has more
 	NoMoreResults bool // claim more_results = false (end of the whole scan) although the region scanner may stay open
 	Exc           string
+	Heartbeat     bool // an empty response carries heartbeat_message = true (the server ran into its time limit)
 }
 
 func (c *Cluster) metaRowsLocked() []Row {
@@ -274,6 +275,9 @@ func (c *Cluster) serveScan(rs *RS, sc *ServerConn, req *Request, p *pb.ScanRequ
 		resp.MoreResults = proto.Bool(false)
 	} else {
 		resp.MoreResults = proto.Bool(true)
+	}
+	if cut.Heartbeat && cut.Entries == 0 && more {
+		resp.HeartbeatMessage = proto.Bool(true)
 	}
 	closed := false
 	if !more || p.GetCloseScanner() || cut.NoMoreResults {
